@@ -786,7 +786,7 @@ def run_rich(case):
 # ---------------------------------------------------------------------------------------
 
 def generate(rng, tier):
-    n = {"quick": 216, "escalated": 900, "thorough": 4200}[tier]
+    n = {"quick": 216, "escalated": 600, "thorough": 1200}[tier]
     cases = []
     for k in range(n):
         cases.append(gen_rich(rng, k) if k % 6 == 5 else gen_eng(rng, k))
